@@ -72,15 +72,8 @@ def verify_one(job):
             lm = reg.lemmas[q[6:]]
             obs = ex.verify_lemma(lm)
             for ob in obs:
-                smt2 = None
-                if opts.get("defer"):
-                    sv = z3.Solver()
-                    sv.add(ob.hyps)
-                    sv.add(z3.Not(ob.goal))
-                    smt2 = sv.to_smt2()
-                else:
-                    discharge(ob, both=opts.get("both", False), use_cvc5=opts.get("cvc5", True))
-                res["obligations"].append({"smt2_text": smt2, "name": ob.name, "kind": ob.kind, "props": ob.props, "verdict": ob.verdict, "backend": ob.backend,
+                discharge(ob, both=opts.get("both", False), use_cvc5=opts.get("cvc5", True))
+                res["obligations"].append({"name": ob.name, "kind": ob.kind, "props": ob.props, "verdict": ob.verdict, "backend": ob.backend,
                                            "time": round(ob.time, 3), "line": None, "reason": ob.reason, "trace": []})
             res["cover"] = ex.cover
             res["wall"] = time.time() - t0
@@ -101,14 +94,13 @@ def verify_one(job):
             res["unsupported"] = f"VC generation failed on this source ({type(e).__name__}: {e})"
             obs = []
         res["gen_s"] = time.time() - t0
+        k_, n_ = opts.get("slice", (0, 1))
+        res["total_obligations"] = len(obs)
+        obs = [ob for i_, ob in enumerate(obs) if i_ % n_ == k_]
         for ob in obs:
-            if opts.get("defer"):
-                sv = z3.Solver()
-                sv.add(ob.hyps)
-                sv.add(z3.Not(ob.goal))
-                ob.smt2 = sv.to_smt2()
-            else:
-                discharge(ob, both=opts.get("both", False), use_cvc5=opts.get("cvc5", True))
+            # discharged in the process that generated the formula: z3 behaves measurably worse on the same formula after a
+            # round trip through SMT-LIB text (different term order / let-structure), so nothing is re-parsed
+            discharge(ob, both=opts.get("both", False), use_cvc5=opts.get("cvc5", True))
             d = {
                 "name": ob.name + (f"[{fam}]" if fam else ""),
                 "kind": ob.kind,
@@ -120,8 +112,6 @@ def verify_one(job):
                 "reason": ob.reason,
                 "trace": ob.trace,
             }
-            if opts.get("defer"):
-                d["smt2_text"] = ob.smt2
             if ob.verdict == "refuted" and ob.model is not None:
                 d["model"] = model_summary(ob.model)
             if ob.verdict != "discharged" and opts.get("dump"):
@@ -177,25 +167,35 @@ def run(props=None, only=None, both=False, cvc5=True, dump=False, repo_root=None
             if tags & set(props):
                 keep.append((q, fam))
         tg = keep
-    jobs = [(q, fam, {"both": both, "cvc5": cvc5, "dump": dump, "repo": repo_root, "defer": True}) for q, fam in tg]
+    jobs = []
+    for q, fam in tg:
+        n = 1
+        if not q.startswith("lemma."):
+            n = max(1, int(getattr(reg.contracts[q], "slices", 1)))
+        for k in range(n):
+            jobs.append((q, fam, {"both": both, "cvc5": cvc5, "dump": dump, "repo": repo_root, "slice": (k, n)}))
     procs = procs or 16
     ctx = mp.get_context("fork")
-    from .smt import discharge_text
-
-    with ctx.Pool(procs, maxtasksperchild=8) as pool:
-        # phase 1: VC generation per function; phase 2: every obligation is its own task (fine-grained parallelism)
-        results = pool.map(verify_one, jobs, chunksize=1) if jobs else []
-        tasks = []
-        for ri, r in enumerate(results):
-            for oi, o in enumerate(r["obligations"]):
-                if o.get("smt2_text"):
-                    tasks.append((ri, oi, o.pop("smt2_text")))
-        # longest formulas first
-        tasks.sort(key=lambda t: -len(t[2]))
-        outs = pool.map(discharge_text, [(t[2], both, cvc5) for t in tasks], chunksize=1) if tasks else []
-    for (ri, oi, _), d in zip(tasks, outs):
-        results[ri]["obligations"][oi].update(d)
-    return results
+    # heaviest first
+    jobs.sort(key=lambda j_: -j_[2]["slice"][1])
+    with ctx.Pool(procs, maxtasksperchild=4) as pool:
+        parts = pool.map(verify_one, jobs, chunksize=1) if jobs else []
+    # merge the slices of one function back into one result
+    merged = {}
+    order = []
+    for r in parts:
+        key = (r["target"], r["family"])
+        if key not in merged:
+            merged[key] = r
+            order.append(key)
+        else:
+            m = merged[key]
+            m["obligations"].extend(r["obligations"])
+            m["assumed"] = sorted(set(m["assumed"]) | set(r["assumed"]))
+            m["wall"] = max(m.get("wall", 0), r.get("wall", 0))
+            m["error"] = m["error"] or r["error"]
+            m["unsupported"] = m["unsupported"] or r["unsupported"]
+    return [merged[k] for k in order]
 
 
 if __name__ == "__main__":
